@@ -62,13 +62,17 @@ def generate(facts):
         "none" if s is None else "some " + llist(str(ord(c)) for c in s) for s in schemes))
     pats = {}
     shas = {}
+    flags = {}
     for name in REGEXES:
-        r = getattr(m, name)
-        pats[name] = r.pattern
-        shas[name] = hashlib.sha1((r.pattern + "|" + str(int(r.flags))).encode()).hexdigest()
+        # a renamed / removed regex is a *changed pin* (escalates the matcher correspondence), not an
+        # extraction failure: the hand matchers do not depend on the regex objects
+        r = getattr(m, name, None)
+        pats[name] = getattr(r, "pattern", "<missing>")
+        flags[name] = int(getattr(r, "flags", 0))
+        shas[name] = hashlib.sha1((pats[name] + "|" + str(flags[name])).encode()).hexdigest()
     lines.append("/-- regex sources re-implemented by the hand matchers of `U3.Url` (documentation / pins) -/")
     lines.append("def urlRegexSources : List (String × String × Nat) := " + llist(
-        f'({lean_string(n)}, {lean_string(pats[n])}, {int(getattr(m, n).flags)})' for n in REGEXES))
+        f'({lean_string(n)}, {lean_string(pats[n])}, {flags[n]})' for n in REGEXES))
     facts["urlCharSets"] = sets
     facts["normalizableSchemes"] = schemes
     facts["urlRegexSha1"] = shas
